@@ -216,7 +216,8 @@ def one(mid, relfile, seed):
 
 def main():
     ap = argparse.ArgumentParser()
-    ap.add_argument("cmd", choices=["run", "report"])
+    ap.add_argument("cmd", choices=["run", "report", "rerun"])
+    ap.add_argument("--ids", default="")
     ap.add_argument("--n", type=int, default=20)
     ap.add_argument("--seed", type=int, default=1)
     ap.add_argument("--jobs", type=int, default=3)
@@ -235,6 +236,16 @@ def main():
             print("%-22s %d" % (k, len(v)))
         for r in by.get("survived", []) + by.get("machinery", []):
             print("  %s %s %s :: %s" % (r["status"], r["id"], r["file"].split("/")[-1], r.get("mutation", "")[:170]))
+        return 0
+    if a.cmd == "rerun":
+        # the same mutants again (same file, same seed), against the checks as they are now
+        jobs = []
+        for mid in a.ids.split(","):
+            r = json.load(open(os.path.join(OUT, mid + ".json")))
+            jobs.append((mid, r["file"], r["seed"]))
+        with ThreadPoolExecutor(max_workers=a.jobs) as ex:
+            for r in ex.map(lambda j: one(*j), jobs):
+                print("%s %-24s %-22s %s" % (r["id"], os.path.basename(r["file"]), r.get("status"), (r.get("mutation") or "")[:110]), flush=True)
         return 0
     rng = random.Random(a.seed)
     files = []
